@@ -44,3 +44,21 @@ Print Assumptions C07_header_roundtrip.
 Theorem C07_wf_layout_short l : wf_layout l -> zlen l <= 31.
 Proof. exact (wf_layout_short l). Qed.
 Print Assumptions C07_wf_layout_short.
+
+(** "xFilesFactor a number within [0,1]": the bit test the model uses ([valid_xff], mirroring
+    validateXFilesFactor's NaN / < 0 / > 1 tests) accepts exactly the float32 bit patterns that
+    denote a real number in [0,1] (-0 included), with Flocq's IEEE-754 semantics of the bits.
+    This theorem depends on the standard library's axioms of the real numbers (named below by
+    Print Assumptions and in the trusted base). *)
+From Coq Require Import Reals.
+From Flocq Require Import Core.Core IEEE754.Binary IEEE754.Bits.
+From WT Require Import Proofs.XffProofs.
+Theorem C07_xff_valid_iff_number_in_unit_interval b : 0 <= b < 2^32 ->
+  (valid_xff b = true <->
+   match b32_of_bits b with
+   | B754_nan _ _ _ _ _ => False
+   | B754_infinity _ _ _ => False
+   | x => (0 <= B2R 24 128 x <= 1)%R
+   end).
+Proof. exact (valid_xff_iff_b32 b). Qed.
+Print Assumptions C07_xff_valid_iff_number_in_unit_interval.
